@@ -15,6 +15,7 @@ import (
 	stdcrypto "crypto"
 	"crypto/ecdsa"
 	"crypto/ed25519"
+	"crypto/elliptic"
 	"crypto/rand"
 	"crypto/rsa"
 	"crypto/sha1"
@@ -42,19 +43,36 @@ type vfC08Sig struct {
 	sig  []byte
 }
 
-func vfC08Pad32(b []byte) []byte {
-	if len(b) >= 32 {
-		return b[len(b)-32:]
+func vfC08PadN(b []byte, n int) []byte {
+	if len(b) >= n {
+		return b[len(b)-n:]
 	}
-	return append(make([]byte, 32-len(b)), b...)
+	return append(make([]byte, n-len(b)), b...)
+}
+
+func vfC08Pad32(b []byte) []byte { return vfC08PadN(b, 32) }
+
+// group orders an (r, s) pair might belong to: the attacker does not need to know, it tries them all
+func vfC08Orders(kt cpb.KeyType) []*big.Int {
+	if kt == cpb.KeyType_Secp256k1 {
+		return []*big.Int{secp256k1.S256().N}
+	}
+	return []*big.Int{elliptic.P224().Params().N, elliptic.P256().Params().N, elliptic.P384().Params().N, elliptic.P521().Params().N}
 }
 
 // encodings of one ECDSA-style (r, s) pair
-func vfC08RSForms(prefix string, r, s, n *big.Int) []vfC08Sig {
+func vfC08RSForms(prefix string, r, s *big.Int, orders []*big.Int) []vfC08Sig {
 	var out []vfC08Sig
 	add := func(name string, b []byte) { out = append(out, vfC08Sig{prefix + name, b}) }
 	der, _ := asn1.Marshal(struct{ R, S *big.Int }{r, s})
-	raw := append(append([]byte{}, vfC08Pad32(r.Bytes())...), vfC08Pad32(s.Bytes())...)
+	size := 32
+	for _, n := range orders { // the smallest group the pair fits in
+		if r.Cmp(n) < 0 && s.Cmp(n) < 0 {
+			size = (n.BitLen() + 7) / 8
+			break
+		}
+	}
+	raw := append(append([]byte{}, vfC08PadN(r.Bytes(), size)...), vfC08PadN(s.Bytes(), size)...)
 	add("der", der)
 	add("der+00", append(append([]byte{}, der...), 0x00))
 	add("der+der", append(append([]byte{}, der...), der...))
@@ -68,27 +86,22 @@ func vfC08RSForms(prefix string, r, s, n *big.Int) []vfC08Sig {
 	for _, v := range []byte{0, 1, 27, 28} { // r || s || v
 		add(fmt.Sprintf("rsv-%d", v), append(append([]byte{}, raw...), v))
 	}
-	if n != nil {
+	for _, n := range orders {
+		if s.Cmp(n) >= 0 || r.Cmp(n) >= 0 {
+			continue
+		}
+		sz := (n.BitLen() + 7) / 8
+		tag := fmt.Sprintf("negs%d-", n.BitLen())
 		hs := new(big.Int).Sub(n, s)
 		der2, _ := asn1.Marshal(struct{ R, S *big.Int }{r, hs})
-		add("negs-der", der2)
-		raw2 := append(append([]byte{}, vfC08Pad32(r.Bytes())...), vfC08Pad32(hs.Bytes())...)
-		add("negs-raw", raw2)
+		add(tag+"der", der2)
+		raw2 := append(append([]byte{}, vfC08PadN(r.Bytes(), sz)...), vfC08PadN(hs.Bytes(), sz)...)
+		add(tag+"raw", raw2)
 		for h := 27; h <= 34; h++ {
-			add(fmt.Sprintf("negs-compact-hdr%d", h), append([]byte{byte(h)}, raw2...))
+			add(fmt.Sprintf("%scompact-hdr%d", tag, h), append([]byte{byte(h)}, raw2...))
 		}
 	}
 	return out
-}
-
-func vfC08CurveN(kt cpb.KeyType) *big.Int {
-	switch kt {
-	case cpb.KeyType_Secp256k1:
-		return secp256k1.S256().N
-	case cpb.KeyType_ECDSA:
-		return crypto.ECDSACurve.Params().N
-	}
-	return nil
 }
 
 // vfC08SigReencodings: what an attacker WITHOUT the private key can make of a signature it has seen.
@@ -105,7 +118,7 @@ func vfC08SigReencodings(kt cpb.KeyType, sig []byte) []vfC08Sig {
 	case cpb.KeyType_Secp256k1, cpb.KeyType_ECDSA:
 		var rs struct{ R, S *big.Int }
 		if rest, err := asn1.Unmarshal(sig, &rs); err == nil && len(rest) == 0 && rs.R.Sign() > 0 && rs.S.Sign() > 0 {
-			out = append(out, vfC08RSForms("re:", rs.R, rs.S, vfC08CurveN(kt))...)
+			out = append(out, vfC08RSForms("re:", rs.R, rs.S, vfC08Orders(kt))...)
 		}
 	case cpb.KeyType_Ed25519:
 		if len(sig) == 64 { // S + L: the classic non-canonical scalar
@@ -174,7 +187,7 @@ func vfC08SigFamily(priv crypto.PrivKey, msg []byte) []vfC08Sig {
 			}
 		}
 		if r, s, err := ecdsa.Sign(rand.Reader, k, h256[:]); err == nil {
-			out = append(out, vfC08RSForms("fresh:", r, s, k.Curve.Params().N)...)
+			out = append(out, vfC08RSForms("fresh:", r, s, []*big.Int{k.Curve.Params().N})...)
 		}
 	case *ed25519.PrivateKey:
 		b, err := k.Sign(rand.Reader, h512[:], &ed25519.Options{Hash: stdcrypto.SHA512})
